@@ -118,6 +118,24 @@ def noStealS (K : Calc R S) : List R → List (Ctl R S) → Bool
       | none => noStealS K rs old
     | (none, none) => noStealS K rs old
 
+/-- The classifier of `reuse-steals-controller`, following the real builder step by step (it is `noStealS K` when
+    `canon = id`): whenever a rule takes the statistic of an old controller, that controller must not be wanted by a
+    later rule, and if the rule has a controller of its own (an old one equal to it up to `canon`: constructor
+    normalisation, decision-neutral fields) it must be exactly that one. -/
+def stealSim {R S} (K : Calc R S) (canon : R → R) : List R → List (Ctl R S) → Bool
+  | [], _ => true
+  | r :: rs, old =>
+    let eq' (o n : R) : Bool := K.eq o n || K.eq (canon o) (canon n)
+    match reuseIdx K r old 0 none with
+    | (some i, _) => stealSim K canon rs (old.eraseIdx i)
+    | (none, some j) =>
+      match old[j]? with
+      | some c =>
+        let own := old.findIdx? fun c' => eq' c'.rule r
+        (own.isNone || own == some j) && (rs.all fun r' => !eq' c.rule r') && stealSim K canon rs (old.eraseIdx j)
+      | none => stealSim K canon rs old
+    | (none, none) => stealSim K canon rs old
+
 /-! ## circuit breaker (`core/circuitbreaker/rule.go`) -/
 
 structure CbRule where
@@ -417,6 +435,11 @@ def HotRule.valid (r : HotRule) : Bool := !(r.mtype == 1 && r.dur == 0)
 
 /-- `newBaseTrafficShapingControllerWithMetric` replaces a nil `SpecificItems` by an empty map in the rule object -/
 def HotRule.norm (r : HotRule) : HotRule := if r.items = 0 then { r with items := 1 } else r
+
+/-- fields that do not influence a rule's decisions: a hotspot concurrency rule never looks at `BurstCount` /
+    `MaxQueueingTimeMs`, although `Equals` compares them — a rule modified only there must behave as if unchanged,
+    through the stat-reuse path ("a modified rule whose statistic parameters are unchanged keeps its statistics") -/
+def HotRule.neutral (r : HotRule) : HotRule := if r.mtype = 0 then { r with burst := 0, maxQ := 0 } else r
 
 /-- `ParamsMetric` (QPS): per-value last-fill time and remaining tokens.  All mutable state of a hotspot controller
     lives here, so a stat-reusing rebuild keeps every counter. -/
